@@ -1003,6 +1003,10 @@ fn run_fuzz_stage(id: &str, spec: &FuzzSpec, seed: u64) -> (Value, u64, Vec<(Str
         .env("CARGO_NET_OFFLINE", "true")
         .env("FUZZ_PROP", id)
         .env("RUST_BACKTRACE", "0")
+        // -detect_leaks=0 only switches off libFuzzer's per-input leak check; the end-of-process check of the
+        // sanitizer runtime would still turn the library's arena leak into a non-zero exit status
+        .env("ASAN_OPTIONS", "detect_leaks=0")
+        .env("LSAN_OPTIONS", "detect_leaks=0")
         .args(["+nightly", "fuzz", "run", "--fuzz-dir", "."])
         .arg(spec.target)
         .arg(&corpus)
@@ -1011,6 +1015,14 @@ fn run_fuzz_stage(id: &str, spec: &FuzzSpec, seed: u64) -> (Value, u64, Vec<(Str
         .arg(format!("-seed={}", (seed % 0xFFFF_FFFF).max(1)))
         .arg("-len_control=0")
         .arg("-detect_leaks=0")
+        // the library never frees what its bump arenas hold (every SddOr's Vec leaks when a builder goes away), so
+        // the resident set of a long in-process campaign grows steadily; libFuzzer's default 2 GB cap would end the
+        // stage with an out-of-memory report that says nothing about the property
+        .arg("-rss_limit_mb=0")
+        .arg("-malloc_limit_mb=0")
+        // safety net only: the stage is sized by -runs; if the machine is so loaded that this is hit, fewer
+        // executions are reported in the evidence, never a verdict
+        .arg("-max_total_time=2400")
         .arg(format!("-max_len={}", spec.max_len))
         .arg(format!("-artifact_prefix={}/", artifacts.display()))
         .arg("-print_final_stats=1")
@@ -1049,6 +1061,9 @@ fn run_fuzz_stage(id: &str, spec: &FuzzSpec, seed: u64) -> (Value, u64, Vec<(Str
                 ("violation".to_string(), runs)
             } else if o.status.success() {
                 ("ok".to_string(), runs)
+            } else if text.contains("ERROR: libFuzzer: out-of-memory") || text.contains("ERROR: libFuzzer: timeout") {
+                // resource limits of the fuzzing process are never a verdict
+                ("unavailable: the fuzzing process hit a resource limit (out of memory / time), which is not a verdict".to_string(), runs)
             } else if text.contains("ERROR: AddressSanitizer") || text.contains("ERROR: libFuzzer") {
                 // a crash without a semantic report: memory error or abort inside the library
                 let mut saved = None;
